@@ -29,11 +29,11 @@ EXPLANATION = (
 
 
 def run(ctx):
-    driver(ctx)
-    delegation(ctx)
-    stft_streaming(ctx)
-    si_finalize(ctx)
-    carry(ctx)
+    ctx.rule(driver)
+    ctx.rule(delegation)
+    ctx.rule(stft_streaming)
+    ctx.rule(si_finalize)
+    ctx.rule(carry)
 
 
 def driver(ctx, R="R-C01-driver"):
